@@ -76,7 +76,8 @@ class Gen:
         sub = None if r.random() < 0.6 else ['T', 'T', [['[', ['Str', 'n']]]]
         types = r.choice([[], [], ['int'], ['int', 'str'], ['dict']])
         vals = r.choice([[], [], [1, 5], [None, 'a'], [7]])
-        validators = r.choice([[], [], [['even']], [['gt', 4]], [['even'], ['gt', 4]], [['raise', 'ValueError']]])
+        validators = r.choice([[], [], [['even']], [['gt', 4]], [['even'], ['gt', 4]], [['raise', 'ValueError']],
+                               [['const', 0]], [['id']], [['is_none'], ['const', 0]], [['inc']]])     # falsy results that are not False pass
         inst = r.choice([[], [], ['int'], ['object'], ['str', 'dict']])
         default = None if r.random() < 0.6 else ['Lit', 'dflt']
         return ['Check', sub, types, vals, validators, inst, default]
